@@ -86,6 +86,13 @@ func (w *sessionResponseWriter) WriteHeader(statusCode int) {
 		// Multiple calls ot WriteHeader are no-ops
 		return
 	}
+	if statusCode >= 100 && statusCode <= 199 && statusCode != http.StatusSwitchingProtocols {
+		// Informational (1xx) responses are interim; the cookies are
+		// intercepted on the final response that follows them.
+		w.Header().Del("Set-Cookie")
+		w.wrapped.WriteHeader(statusCode)
+		return
+	}
 	w.wroteHeader = true
 	header := w.Header()
 	cookiesToAdd := (&http.Response{Header: header}).Cookies()
